@@ -704,7 +704,8 @@ def r_roll(c):
 def r_fillna_directional(c):
     """forward / backward fill along axis 1 carries a value of one column into the next (different dtype)"""
     o = Obs([c.a.dtype, c.b.dtype, Y.dtype])
-    arrays = [c.b, c.a, Y, c.a[::-1].copy(), c.b]
+    # the neighbours are rotated so that their missing rows do not coincide with those of the receiving column (a value IS carried into a missing cell)
+    arrays = [np.roll(c.b, 1), c.a, Y, c.a[::-1].copy(), np.roll(c.b, 2)]
     cols = [elems(x) for x in arrays]
     lay = tuple((1, True) for _ in arrays)
     f0 = frame_from(arrays, lay, index=IDX, column_labels=['w', 'x', 'y', 'x2', 'w2'])
